@@ -57,53 +57,6 @@ func c04Setup() {
 	})
 }
 
-var c04Levels = []string{"EXCEPTION", "ERROR", "WARN", "INFO", "DEBUG", "TRACE"}
-
-func c04RandText(r *Rng) string {
-	switch r.Intn(9) {
-	case 0:
-		return ""
-	case 1:
-		return "hello world"
-	case 2:
-		return "ünï-çødé ✓ 日本"
-	case 3:
-		return `quote " back\slash <tag> & {json:"x"}`
-	case 4:
-		return strings.Repeat("long-", r.Range(20, 80))
-	case 5:
-		return "line1\nline2\ttab"
-	case 6:
-		return "x" + strconv.Itoa(r.Intn(1000))
-	case 7:
-		return string(rune(0x1F600+r.Intn(40))) + " emoji"
-	default:
-		n := r.Range(1, 12)
-		b := make([]byte, n)
-		for i := range b {
-			b[i] = byte(0x20 + r.Intn(0x5f))
-		}
-		return string(b)
-	}
-}
-
-func c04RandLevel(r *Rng) string {
-	switch x := r.Intn(100); {
-	case x < 80:
-		return Pick(r, c04Levels)
-	case x < 85:
-		return ""
-	case x < 90:
-		return strings.ToLower(Pick(r, c04Levels))
-	case x < 94:
-		return "VERBOSE"
-	case x < 97:
-		return Pick(r, c04Levels) + " "
-	default:
-		return c04RandText(r)
-	}
-}
-
 func c04RandLogs(r *Rng, max int) []famLog {
 	n := r.Intn(max + 1)
 	if r.Chance(3) {
@@ -111,11 +64,11 @@ func c04RandLogs(r *Rng, max int) []famLog {
 	}
 	logs := make([]famLog, n)
 	for i := range logs {
-		l := famLog{Level: c04RandLevel(r), Msg: c04RandText(r)}
+		l := famLog{Level: famRandLevel(r), Msg: famRandText(r)}
 		if r.Chance(45) {
 			keys := []string{"a", "b", "k", "K", "", "zz", "ключ", "a b", "user.id", "a"}
 			for j := r.Range(1, 4); j > 0; j-- {
-				l.Extras = append(l.Extras, vgirpc.KV{Key: Pick(r, keys), Value: c04RandText(r)})
+				l.Extras = append(l.Extras, vgirpc.KV{Key: Pick(r, keys), Value: famRandText(r)})
 			}
 		}
 		logs[i] = l
@@ -127,7 +80,7 @@ func c04RandValue(r *Rng, method string) string {
 	ints := []int64{0, 1, -1, 42, math.MaxInt64, math.MinInt64, 1 << 32, -(1 << 31)}
 	switch method {
 	case "u_str":
-		return famTokStr(c04RandText(r))
+		return famTokStr(famRandText(r))
 	case "u_i64":
 		if r.Bool() {
 			return famTokI64(Pick(r, ints))
@@ -144,7 +97,7 @@ func c04RandValue(r *Rng, method string) string {
 		}
 		return famTokList(l)
 	case "u_rec":
-		return famTokRec(famRec{A: Pick(r, ints), B: c04RandText(r)})
+		return famTokRec(famRec{A: Pick(r, ints), B: famRandText(r)})
 	default:
 		return "void"
 	}
@@ -156,14 +109,14 @@ func c04RandOutcome(r *Rng, method string) famOutcome {
 		return famOutcome{Kind: "ret", Val: c04RandValue(r, method)}
 	case x < 82:
 		sub := Pick(r, []string{"rpc", "rpc", "plain", "wrap"})
-		o := famOutcome{Kind: "err", Sub: sub, Msg: c04RandText(r)}
+		o := famOutcome{Kind: "err", Sub: sub, Msg: famRandText(r)}
 		if sub == "rpc" {
 			o.Typ = Pick(r, []string{"ValueError", "TypeError", "RuntimeError", "KeyError", "CustomAppError", ""})
 		}
 		return o
 	default:
 		sub := Pick(r, []string{"str", "err", "int"})
-		o := famOutcome{Kind: "panic", Sub: sub, Msg: c04RandText(r)}
+		o := famOutcome{Kind: "panic", Sub: sub, Msg: famRandText(r)}
 		if sub == "int" {
 			o.Int = Pick(r, []int{0, 7, -12, 1 << 40, math.MinInt64, math.MaxInt64})
 		}
@@ -184,7 +137,7 @@ func c04Gen(g *Gen) {
 		for k := r.Range(1, 3); k > 0; k-- {
 			method := Pick(r, famUnaryMethods)
 			sc := &famUnaryScript{Logs: c04RandLogs(r, 6), Out: c04RandOutcome(r, method)}
-			lvl := c04RandLevel(r)
+			lvl := famRandLevel(r)
 			rid := Pick(r, rids)
 			// the same program on both transports
 			lines = append(lines, c04Line("pipe", method, lvl, rid, sc), c04Line("http", method, lvl, rid, sc))
@@ -192,7 +145,7 @@ func c04Gen(g *Gen) {
 		g.Case(lines...)
 	}
 	// exhaustive requested-level x emitted-level table (x outcome x transport): always, it is small
-	all := append(append([]string{}, c04Levels...), "", "info", "VERBOSE")
+	all := append(append([]string{}, famLevels...), "", "info", "VERBOSE")
 	for _, req := range all {
 		var lines []string
 		for _, lv := range all {
@@ -401,14 +354,6 @@ func c04Oracle(c *Case, call *c04Call, info vgirpc.VerifC04Method, st famStream,
 	if last.Rows != 1 || last.Val != call.script.Out.Val {
 		fail("result-value-mismatch", "result batch rows=%d value %s, want one row holding %s", last.Rows, last.Val, call.script.Out.Val)
 	}
-}
-
-// panicText is fmt.Sprint of the value the scripted handler panics with.
-func (o famOutcome) panicText() string {
-	if o.Sub == "int" {
-		return strconv.Itoa(o.Int)
-	}
-	return o.Msg
 }
 
 // c04Canon renders the response for comparison with the model. For a panicking handler the
